@@ -465,3 +465,27 @@ func CertPublicKey(b64 string) (*rsa.PublicKey, error) {
 	}
 	return pk, nil
 }
+
+// VerifyRedirectValues verifies a redirect signature over the octets rebuilt from DECODED
+// parameter values in the canonical escaping of url.QueryEscape (what a receiver gets when an
+// intermediary re-encoded the query without changing any value). withRelay selects whether the
+// RelayState parameter is part of the octets.
+func VerifyRedirectValues(msgParam, msg, relay string, withRelay bool, sigAlg, sigB64 string, pub *rsa.PublicKey) bool {
+	hh, ok := sigHash(sigAlg)
+	if !ok || pub == nil {
+		return false
+	}
+	sig, err := base64.StdEncoding.DecodeString(sigB64)
+	if err != nil {
+		return false
+	}
+	enc := func(s string) string { return PercentEncode(s, false, true, false) }
+	oct := msgParam + "=" + enc(msg)
+	if withRelay {
+		oct += "&RelayState=" + enc(relay)
+	}
+	oct += "&SigAlg=" + enc(sigAlg)
+	h := hh.New()
+	h.Write([]byte(oct))
+	return rsa.VerifyPKCS1v15(pub, hh, h.Sum(nil), sig) == nil
+}
